@@ -266,6 +266,10 @@ def search(ctx, reasons):
 
 
 def replay(ctx, payload):
-    case = payload.get('case', payload)
-    case = {k: v for k, v in case.items() if k != 'original'}
-    return run_cases(ctx, [case], True)
+    if 'case' not in payload and payload.get('correspondence'):
+        # replay file of a model-vs-implementation disagreement: the cases are listed under 'correspondence'
+        cases = [c['case'] for c in payload['correspondence'] if isinstance(c, dict) and 'case' in c]
+    else:
+        cases = [payload.get('case', payload)]
+    cases = [{k: v for k, v in case.items() if k != 'original'} for case in cases]
+    return run_cases(ctx, cases, True)
